@@ -218,3 +218,67 @@ def import_obligations(ctx, prog, runners, rule, prefix="", keep=None, what="imp
         ctx.obs.append(ob)
         n += 1
     return n
+
+
+def verbatim_store_rule(prog, ctx, rule, fname, field, pindex, what):
+    """`fname` stores into `.field` a complete copy of the text it is handed in parameter #pindex: strdup() of the parameter itself
+    (or of a local that stands for it: `value = v ? v : ""`), which is not moved or shortened before.  strndup / a pointer that was
+    advanced / a copy loop store a PART of the text."""
+    from sa.ast import render
+    from sa import query
+    from sa.dataflow import ReachingDefs
+    if not prog.has_fn(fname):
+        ctx.inconclusive(rule, what, "", "anchor vanished: %s" % fname)
+        return
+    f = prog.fn(fname)
+    ctx.touch(f)
+    pname = f.params[pindex]["name"]
+    rd = ReachingDefs(f)
+    sts = [(st, rhs) for lhs, rhs, st, kind in query.stores(f) if kind == "=" and lhs.strip().k == "MemberExpr" and lhs.strip().j.get("member") == field
+           and rhs is not None and not rhs.is_null_const()]
+    if not sts:
+        ctx.inconclusive(rule, what, f.where, "no store to .%s in %s" % (field, fname))
+        return
+
+    def stands_for_param(e, at, depth=0):
+        e0 = e.strip()
+        if e0.k == "ConditionalOperator":
+            arms = [e0.child("then"), e0.child("else")]
+            return all(a is not None and (a.string_value() is not None or stands_for_param(a, at, depth + 1)) for a in arms) and \
+                any(a is not None and a.string_value() is None for a in arms)
+        if e0.k != "DeclRefExpr":
+            return False
+        nm = e0.j.get("name")
+        moved = [st for lhs, rhs, st, kind in query.stores(f) if render(lhs) == nm and (kind != "=" or rhs is None or nm in render(rhs))]
+        if moved:
+            return False
+        if e0.j.get("dk") == "param":
+            return nm == pname
+        if depth > 3:
+            return False
+        ds = rd.reaching(nm, at)
+        return bool(ds) and all(d.rhs is not None and d.node is not None and stands_for_param(d.rhs, d.node, depth + 1) for d in ds)
+    for st, rhs in sts:
+        srcs = [(rhs.strip(), st)]
+        r0 = rhs.strip()
+        if r0.k == "DeclRefExpr" and r0.j.get("dk") == "local":
+            srcs = [(d.rhs.strip(), d.node) for d in rd.reaching(r0.j["name"], st) if d.rhs is not None and d.node is not None and not d.rhs.is_null_const()]
+        verdict = "ok"
+        why = ""
+        for x, at in srcs:
+            if x.k == "CallExpr" and x.j.get("callee") == "strdup" and x.call_args() and stands_for_param(x.call_args()[0], at):
+                continue
+            if x.k == "CallExpr" and x.j.get("callee") in ("strndup", "strdup", "memcpy", "strncpy", "mempcpy"):
+                verdict, why = "fail", render(x)[:60]
+                break
+            verdict, why = "unknown", render(x)[:60]
+        if not srcs:
+            verdict, why = "unknown", render(rhs)[:60]
+        if verdict == "ok":
+            ctx.ok(rule, what, st.where, "%s = strdup(%s)" % (render(st.children[0])[:40], pname))
+        elif verdict == "fail":
+            ctx.fail(rule, what, st.where,
+                     "`.%s` receives %s: a part of the text handed in `%s` (or the text from a moved pointer), not a copy of all of it - what is looked up or "
+                     "read back later is not what was given" % (field, why, pname), key="verbatim:%s:%s" % (fname, field))
+        else:
+            ctx.inconclusive(rule, what, st.where, "source %s not understood" % why)
